@@ -9,6 +9,7 @@ import Circomspect.Model.CfgLift
 import Circomspect.Spec.Cfg
 import Circomspect.Spec.Trace
 import Circomspect.Model.UniqueVars
+import Circomspect.Model.Ssa
 import Driver.Sexp
 
 namespace Driver
@@ -351,6 +352,80 @@ def uniqCmd (rest : String) : String :=
     s!"{" ".intercalate (outs.map line)} # {" ".intercalate shadowM} # {" ".intercalate shadowS} # {UniqueVars.paramCollision ps}"
   | _ => "bad-op"
 
+/-- `(v name suffix version)` -> (key, version?) -/
+def vvarOf (v : Sexp) : Option (String × Option Nat) :=
+  match v with
+  | .list [.atom "v", .atom n, .atom sfx, ver] =>
+    some ((if sfx == "-" then n else n ++ "." ++ sfx), Sexp.nat? ver)
+  | _ => none
+
+/-- all versioned variable occurrences of an IR expression dump -/
+partial def exprReads (e : Sexp) : List Ssa.VVar :=
+  match e with
+  | .list (.atom "var" :: _ :: v :: _) => (match vvarOf v with | some (k, some n) => [(k, n)] | _ => [])
+  | .list (.atom "acc" :: _ :: v :: .list acc :: _) =>
+    (match vvarOf v with | some (k, some n) => [(k, n)] | _ => []) ++ acc.flatMap exprReads
+  | .list (.atom "upd" :: _ :: v :: .list acc :: rhe :: _) =>
+    (match vvarOf v with | some (k, some n) => [(k, n)] | _ => []) ++ acc.flatMap exprReads ++ exprReads rhe
+  | .list (.atom "phi" :: _ :: .list args :: _) => args.filterMap (fun a => match vvarOf a with | some (k, some n) => some (k, n) | _ => none)
+  | .list (.atom "idx" :: e :: _) => exprReads e
+  | .list (.atom "exp" :: e :: _) => exprReads e
+  | .list (.atom "m" :: _) => []
+  | .list (.atom "v" :: _) => []
+  | .list (_ :: rest) => rest.flatMap exprReads
+  | _ => []
+
+def ssaStmtOf (st : Sexp) : Ssa.Stmt :=
+  match st with
+  | .list (.atom "st" :: .list (.atom "sub" :: _ :: v :: _ :: rhe :: _) :: _) =>
+    let isPhi := match rhe with | .list (.atom "phi" :: _) => true | _ => false
+    let imp := match rhe with
+      | .list (.atom "upd" :: _ :: uv :: _) => (match vvarOf uv with | some (k, some n) => [(k, n)] | _ => [])
+      | _ => []
+    { isPhi := isPhi, target := (match vvarOf v with | some (k, some n) => some (k, n) | _ => none), reads := exprReads rhe, implicit := imp }
+  | .list (.atom "st" :: .list (.atom "decl" :: _ :: _ :: _ :: .list dims :: _) :: _) =>
+    { isPhi := false, target := none, reads := dims.flatMap exprReads, implicit := [] }
+  | .list (.atom "st" :: .list (_ :: _ :: rest) :: _) => { isPhi := false, target := none, reads := rest.flatMap exprReads, implicit := [] }
+  | _ => { isPhi := false, target := none, reads := [], implicit := [] }
+
+def ssaCfgOf (c : Sexp) : Ssa.Cfg :=
+  match c with
+  | .list (.atom "cfg" :: _ :: _ :: .list ps :: _ :: .list bs :: _) =>
+    { params := ps.filterMap (fun p => (vvarOf p).map (·.1)),
+      blocks := bs.map (fun b => match b with
+        | .list [.atom "b", _, _, .list pr, .list su, .list sts] =>
+          { stmts := sts.map ssaStmtOf, preds := pr.filterMap Sexp.nat?, succs := su.filterMap Sexp.nat? }
+        | _ => default) }
+  | _ => { params := [], blocks := [] }
+
+/-- `ssacheck <ssa cfg>`: the certificate check of C14 on a real SSA dump, plus the static facts -/
+def ssacheckCmd (rest : String) : String :=
+  match Sexp.parse rest with
+  | some c =>
+    let g := ssaCfgOf c
+    let vars := (g.params ++ (Ssa.allStmts g).flatMap (fun s => (match s.target with | some t => [t.1] | none => []) ++ s.reads.map (·.1))).eraseDups
+    let ins := Ssa.guessIns g
+    let r1 := if Ssa.ssaLocalCheck g vars ins then [] else ["local-check"]
+    let r2 := if Ssa.uniqueDefs g then [] else ["unique-defs"]
+    let r3 := if Ssa.phisAtHead g then [] else ["phis-at-head"]
+    let n := g.blocks.length
+    let dbg : List String := if r1.isEmpty then [] else
+      (if Ssa.mentions g vars then [] else ["mentions"]) ++
+      (if (g.block 0).preds.isEmpty then [] else ["entry-preds"]) ++
+      (List.range n).flatMap (fun i =>
+        let b := g.block i
+        (if Ssa.phiPrefix b then [] else [s!"phiprefix@{i}"]) ++
+        b.preds.flatMap (fun p => vars.filterMap (fun v =>
+          match Ssa.phiFor b v with
+          | some args => (match Ssa.outOf g ins p v with
+              | some k => if args.contains (v, k) then none else some s!"edge {p}->{i} {v}: out {k} not in phi args {args.map (·.2)}"
+              | none => none)
+          | none => if Ssa.outOf g ins p v == ins i v then none else some s!"edge {p}->{i} {v}: out {Ssa.outOf g ins p v} != in {ins i v}")) ++
+        (if Ssa.readsOk (ins i) b.stmts then [] else [s!"reads@{i}"]))
+    let rs := r1 ++ r2 ++ r3 ++ dbg.take 6
+    if rs.isEmpty then s!"ok vars={vars.length} stmts={(Ssa.allStmts g).length} phis={((Ssa.allStmts g).filter (·.isPhi)).length}" else "fail " ++ " ".intercalate rs
+  | none => "bad-op"
+
 def showIStmt : CfgLift.IStmt → String
   | .simple l => s!"s{l.1}-{l.2}"
   | .branch l t f => s!"i{l.1}-{l.2}:{t}:{match f with | some f => toString f | none => "-"}"
@@ -385,6 +460,7 @@ def handle (line : String) : String :=
   if line.startsWith "wfcheck " then wfcheckCmd (line.drop 8).toString else
   if line.startsWith "traces " then tracesCmd (line.drop 7).toString else
   if line.startsWith "uniq " then uniqCmd (line.drop 5).toString else
+  if line.startsWith "ssacheck " then ssacheckCmd (line.drop 9).toString else
   match line.splitOn " " with
   | "field" :: args => fieldCmd args
   | "fieldspec" :: args => fieldSpecCmd args
